@@ -8,6 +8,49 @@ from .values import *
 from .state import PathEnd, RaisedEx
 
 
+_MUT_CACHE = {}
+
+
+def mutated_globals(mi):
+    """Module-level names that some function of the module rebinds (global) or mutates in place."""
+    key = (mi.path, id(mi))
+    if key in _MUT_CACHE:
+        return _MUT_CACHE[key]
+    MUT = {"append", "extend", "add", "update", "pop", "insert", "remove", "clear", "setdefault", "popitem", "discard"}
+    out = set()
+    names = set(mi.constants)
+    for fn in ast.walk(mi.tree):
+        if not isinstance(fn, (ast.FunctionDef, ast.AsyncFunctionDef)):
+            continue
+        local = {a.arg for a in fn.args.args + fn.args.kwonlyargs + fn.args.posonlyargs}
+        for n in ast.walk(fn):
+            if isinstance(n, ast.Assign):
+                for t in n.targets:
+                    if isinstance(t, ast.Name):
+                        local.add(t.id)
+        globs = set()
+        for n in ast.walk(fn):
+            if isinstance(n, ast.Global):
+                globs.update(n.names)
+        for n in ast.walk(fn):
+            tgt = None
+            if isinstance(n, (ast.Assign, ast.AugAssign, ast.Delete)):
+                ts = n.targets if not isinstance(n, ast.AugAssign) else [n.target]
+                for t in ts:
+                    if isinstance(t, ast.Subscript) and isinstance(t.value, ast.Name):
+                        tgt = t.value.id
+                    elif isinstance(t, ast.Name) and t.id in globs:
+                        tgt = t.id
+                    if tgt and tgt in names and (tgt not in local or tgt in globs):
+                        out.add(tgt)
+            elif isinstance(n, ast.Call) and isinstance(n.func, ast.Attribute) and n.func.attr in MUT and isinstance(n.func.value, ast.Name):
+                tgt = n.func.value.id
+                if tgt in names and (tgt not in local or tgt in globs):
+                    out.add(tgt)
+    _MUT_CACHE[key] = out
+    return out
+
+
 class ExprMixin:
     # ------------------------------------------------------------- names
     def lookup(self, name, node=None):
@@ -46,6 +89,8 @@ class ExprMixin:
                 if cls0 in mi.classes and self.is_enum(mi, cls0) and qual in mi.constants:
                     return ZV(L.atom(cls0, member0), "Enum:" + cls0)
             if qual in mi.constants and qual not in mi.functions and qual not in mi.classes:
+                if qual in mutated_globals(mi):
+                    raise Unsupported("module-level mutable state %s is written somewhere in %s: its value is not a constant" % (qual, mod))
                 if path in self._const_stack:
                     raise Unsupported("recursive constant " + path)
                 self._const_stack.append(path)
